@@ -398,10 +398,43 @@ func (c *Ctx) signEFIVariableRules() {
 				if ir.HasField(s0, M+"/efivar.Efivar.GUID") || ir.HasField(s0, M+"/efivar.Efivar.Attributes") {
 					bad = append(bad, "first value also derives from GUID/attributes")
 				}
-				if fieldIDOf(ws[1].datum.v) != M+"/efivar.Efivar.GUID" || ir.NamedTypeID(ws[1].datum.v.Type()) != utilP+".EFIGUID" {
-					bad = append(bad, "second value is not the vendor GUID structure of the variable, as given")
+				if dv.fieldIDOfDeep(ws[1].datum) != M+"/efivar.Efivar.GUID" || ir.NamedTypeID(ws[1].datum.v.Type()) != utilP+".EFIGUID" {
+					// ... or the bytes of that structure assembled by hand: Data1, Data2, Data3
+					// little endian, then the eight bytes of Data4, all taken from the variable's GUID
+					byHand, undecided := false, false
+					if d1 := ws[1].datum; isByteSlice(d1.v.Type()) {
+						fromGUID := func(v ssa.Value, fr *frame) bool {
+							sl := dv.sliceDeep(v, fr)
+							return sl[vP] && ir.HasField(sl, M+"/efivar.Efivar.GUID")
+						}
+						oldTF := dv.throughFields
+						dv.throughFields = true
+						segs, okS := dv.byteSeq(d1.v, d1.fr, 0)
+						dv.throughFields = oldTF
+						var ls []leaf
+						switch {
+						case !okS || dv.segLeaves(segs, &ls) != "":
+							undecided = fromGUID(d1.v, d1.fr)
+						case len(ls) == 4 && len(segs) == 4:
+							byHand = true
+							for k, wantF := range []struct {
+								name  string
+								width int
+							}{{"Data1", 4}, {"Data2", 2}, {"Data3", 2}, {"Data4", 8}} {
+								l := ls[k]
+								if !strings.HasSuffix(l.id, utilP[strings.LastIndex(utilP, "/")+1:]+".EFIGUID."+wantF.name) || l.width != wantF.width || l.order != "LE" && !(wantF.name == "Data4" && l.order == "-") || segs[k].cond || !fromGUID(segs[k].v.v, segs[k].v.fr) {
+									byHand = false
+								}
+							}
+						}
+					}
+					if undecided {
+						c.R.Infof("I3.order", fname, "signed-buffer.guid", c.IPos(sign), "not decided for this shape: the second value derives from the variable's GUID but its bytes are not built by a modelled idiom")
+					} else if !byHand {
+						bad = append(bad, "second value is not the vendor GUID structure of the variable, as given")
+					}
 				}
-				if fieldIDOf(ws[2].datum.v) != M+"/efivar.Efivar.Attributes" {
+				if dv.fieldIDOfDeep(ws[2].datum) != M+"/efivar.Efivar.Attributes" {
 					bad = append(bad, "third value is not the variable's attribute mask as given")
 				}
 				if fieldIDOf(ws[3].datum.v) != sigPkg+".EFIVariableAuthentication2.Time" {
